@@ -147,6 +147,7 @@ class Group:
         self.trusted = []      # names of assumed items (external_body / assume_specification) collected later
         self.spec_hash = hashlib.sha256()
         self.stub_mode = False
+        self.canaries = []
         self.byte_consts = {}
         self.fn_props = {}
         self.disabled_hints = set(disabled_hints or [])
@@ -301,6 +302,13 @@ class Group:
                     self.emit_item(relf, ipath, subs, rel, i)
                 else:
                     self.emit_impl_open(relf, ipath, subs, rel)
+            elif body.startswith("canary "):
+                # vacuity guard: a proof fn that assumes the named facts and claims `false`; it MUST fail to verify
+                name, cbody = body[7:].split(None, 1)
+                self.canaries.append(name)
+                self.out.emit("pub proof fn vx_canary_%s() ensures false { %s }" % (name, cbody),
+                              {"kind": "canary", "name": name, "file": rel, "line": i + 1})
+                i += 1
             elif body == "" or body.startswith("#"):
                 i += 1
             else:
